@@ -407,9 +407,9 @@ func cmdCheck(args []string) int {
 	svDir, _ := os.MkdirTemp("", "verif-selfval-")
 	defer os.RemoveAll(svDir)
 	var svCases []selfvalCase
-	svN := 4
+	svN := 8
 	if *tier == "thorough" {
-		svN = 20
+		svN = 30
 	}
 	if v := os.Getenv("VERIF_SELFVAL"); v != "" {
 		fmt.Sscan(v, &svN)
